@@ -985,6 +985,34 @@ def r17_identity_keys_and_complete_compositions(idx, r):
         raise AnchorMissing("b4c: unpacking of setNewMassFracsFromMassEnrich")
 
 
+def r19_stated_ranges_are_ranges(idx, r):
+    """Every validity range a library material states for a property - `propertyValidTemperature = {name: ((low, high), unit)}` - is a range:
+    low < high.  With the bounds exchanged (or a digit slipped: 3715 for 371.5) NO temperature is inside, so the property is reported out of
+    range - refused, in strict mode - wherever it is evaluated, and "finite over its stated range" is vacuous."""
+    n = 0
+    for c in idx.all_classes():
+        if not c.fq.startswith("armi.materials.") or ".tests" in c.fq:
+            continue
+        for st in c.node.body:
+            if not (isinstance(st, ast.Assign) and any(norm(t) == "propertyValidTemperature" for t in st.targets) and isinstance(st.value, ast.Dict)):
+                continue
+            for k_, v in zip(st.value.keys, st.value.values):
+                if not (isinstance(v, ast.Tuple) and v.elts and isinstance(v.elts[0], ast.Tuple) and len(v.elts[0].elts) == 2):
+                    continue
+                lo, hi = v.elts[0].elts
+                try:
+                    a, b = idx.fold(c.module, lo, cls=c), idx.fold(c.module, hi, cls=c)
+                except Exception:
+                    continue
+                if not all(isinstance(x, (int, float)) for x in (a, b)):
+                    continue
+                n += 1
+                r.require(a < b, f"{c.name}:{const_str(k_)}:range-has-its-lower-bound-first", (c.module.relpath, v.lineno, c.name),
+                          msg=f"{c.name} states the range ({a}, {b}) for {const_str(k_)!r}: no temperature lies in it, every evaluation of the property is out of range")
+    if n < 40:
+        raise AnchorMissing("stated validity ranges in armi.materials")
+
+
 def r16_pairing(idx, r):
     from ..pairing import pairing_rule
     pairing_rule(idx, r, ["armi.nucDirectory", "armi.materials"], 80)
@@ -1071,3 +1099,5 @@ def run(idx, chk):
                  necessary="each nuclide belongs to its element; compositions sum to one")
     chk.run_rule("R19.18", "the isotopics blend covers the material's nuclides (R18.12); both range limits are in range; Sodium's critical temperature bounds its density range", lambda r: r18_blend_range_ends_and_critical_point(idx, r), floor=3,
                  necessary="compositions sum to one; every property is defined (finite, real) over its stated range")
+    chk.run_rule("R19.19", "every stated validity range has its lower bound below its upper bound (all library materials)", lambda r: r19_stated_ranges_are_ranges(idx, r), floor=40,
+                 necessary="a material property is defined at every temperature of its stated range - which must contain temperatures")
